@@ -24,7 +24,8 @@ Inductive pcase :=
 | CWHerm (a : P3) (w : Z * Z) (r : bool)
 | CWUnit (a : P3) (w : Z * Z) (r : bool)
 | COpHerm (op : list (P3 * (Z * Z))) (r : bool)
-| CPUnit (a : P3) (r : bool).
+| CPUnit (a : P3) (r : bool)
+| CSet (a : P3) (edits : list (nat * (bool * bool))) (r : P3) (m : list (list (Z * Z))).
 
 Definition mat_eqb (a b : list (list (Z * Z))) : bool := list_eqb (list_eqb zi_eqb) a b.
 
@@ -75,6 +76,9 @@ Definition check (c : pcase) : bool :=
   | CWUnit a w r => Bool.eqb (zi_eqb (smul (s:=ZI) w (sconj (s:=ZI) w)) (s1 (s:=ZI))) r
   | COpHerm op r => Bool.eqb (forallb (fun pw => wherm_flag (fst pw) (snd pw)) op) r
   | CPUnit a r => Bool.eqb true r
+  | CSet a edits r m =>
+      let p := fold_left (fun p e => set_pauli p (fst (snd e)) (snd (snd e)) (fst e)) edits (mk a) in
+      p3_eqb (un p) r && mat_eqb (dense (nq a) (pmatrix (K:=ZI) p)) m
   end.
 
 Definition bad_cases (cs : list (nat * pcase)) : list nat :=
